@@ -239,12 +239,27 @@ pub fn record(args: &[String], lines: impl Iterator<Item = String>) {
                     evals.push((a, c, Some(0)));
                     evals.push((a, b, Some(1 + 3 * (hh - 1) + (hh % 2))));
                 }
+                // same-length prefixes that differ in exactly one bit, placed around the storage-word boundaries of long keys
+                // (cache keys are compared word-wise: bit len%64 of the first word, bits 63/64/65, the last bits)
+                for len in if *bits > 70 { vec![*bits, 70] } else { vec![*bits] } {
+                    let a = rng.below(2) as usize;
+                    for pos in [len % 64, 10, 63, 64, len - 1] {
+                        // the on-path prefix, then its one-bit neighbour: small ring buffers still hold the former's last nodes
+                        evals.push((a, alpha[..len].to_vec(), None));
+                        if pos < len { let mut p = alpha[..len].to_vec(); p[pos] = !p[pos]; evals.push((a, p, None)); }
+                    }
+                }
                 evals.push((0, vec![], None));
                 evals.push((1, vec![true; *bits + 1], None));
                 evals.push((2, alpha[..1].to_vec(), None));
                 let kind = kinds[(n + h) % kinds.len()];
                 units += 1;
                 if *bits <= 64 && h % 2 == 1 { run_history::<TinyFam>(&alpha, &evals, kind, &mut rng, n + h); } else { run_history::<PoplarFam>(&alpha, &evals, kind, &mut rng, n + h); }
+                // keys longer than one storage word: the same history also through the cache that retains everything
+                if *bits > 64 && kind != "hashmap" && h == 0 {
+                    units += 1;
+                    run_history::<PoplarFam>(&alpha, &evals, "hashmap", &mut rng, 0);
+                }
             }
         }
     }
